@@ -1188,10 +1188,10 @@ section round4
 
 /-- the write counts read off the current source: no statement on the path of any public evaluation routine
     (helpers, both noise ceilings, `input_check_model`, the models' `predict` / `predict_rdm` included) writes in
-    place into an object that may alias `data`, `models` or `theta`; `bootstrap_testset*` re-create the default
-    `index` descriptor in the caller's object in exactly the 5 known statements -/
+    place into an object that may alias `data`, `models` or `theta`; `bootstrap_testset*` no longer re-create the default
+    `index` descriptor in the caller's object (5 such statements were removed by a `fix:` commit; the count is pinned at 0) -/
 theorem input_write_leaves :
-    Rsa.Gen.C04.evalInputWrites = 0 ∧ Rsa.Gen.C04.testsetIndexDefaults = 5 := ⟨rfl, rfl⟩
+    Rsa.Gen.C04.evalInputWrites = 0 ∧ Rsa.Gen.C04.testsetIndexDefaults = 0 := ⟨rfl, rfl⟩
 
 /-- as coded, a call leaves the content of the caller's objects exactly as it was — whatever an in-place
     statement would have made of it (`dmg` arbitrary) -/
